@@ -2,7 +2,7 @@
    Print Assumptions; refutation witnesses are closed by vm_compute. W is the window size
    (core.NumBlocksPerFilter = 8192 in juno; the witnesses use W = 4). *)
 From Coq Require Import List NArith Bool.
-From V Require Import C05.Model C05.Proofs_A C05.Proofs_B C05.Proofs_C C05.Proofs_E C05.Proofs_F C05.Proofs_D.
+From V Require Import C05.Model C05.Proofs_A C05.Proofs_B C05.Proofs_C C05.Proofs_E C05.Proofs_F C05.Proofs_D C05.Proofs_G.
 Import ListNotations.
 Open Scope N_scope.
 
@@ -37,6 +37,40 @@ Theorem C05_recover : forall W d m, 0 < W -> consistent W d = true -> cont d = t
     mem_sync W (fst st'') (snd st'') = true.
 Proof. exact recover_next_store. Qed.
 Print Assumptions C05_recover.
+
+(* The event index describes the same chain after a crash: for every history in which no Revert removes
+   a block that a persisted running-filter snapshot already covers (ops_fresh — juno never invalidates
+   the snapshot: registered finding crash:stale-filter-snapshot, C05_crash_index_refuted), the filter a
+   fresh process consults for every retained block — running window or persisted window, after the
+   windows its own initialisation re-writes — has every bit of that block's bloom: no event false
+   negatives (index_covers). IdxD / MemCover (Proofs_G.v) are the content invariants of the persisted
+   windows, the snapshot and the in-memory filter; the empty database satisfies them (corollary). *)
+Theorem C05_index : forall W ops k st, 0 < W ->
+  consistent W (fst st) = true -> cont (fst st) = true -> mem_sync W (fst st) (snd st) = true ->
+  IdxD W (fst st) -> MemCover (fst st) (snd st) ->
+  ops_env W ops st = true -> ops_fresh W ops st = true ->
+  index_covers W (fst (exec_crash W ops k st)) = true.
+Proof.
+  intros W ops k st HW Hc Hk Hs Hi Hm He Hf.
+  exact (crash_index_covers W ops k st HW (conj (conj Hc (conj Hk Hs)) (conj Hi Hm)) He Hf).
+Qed.
+Print Assumptions C05_index.
+
+(* the whole property from the empty database: every crash image of every environment-respecting
+   history is consistent and continuous, a fresh process is ready and stores the next block, and (for
+   snapshot-fresh histories) its event index has no false negatives *)
+Theorem C05_from_empty : forall W ops k, 0 < W -> ops_env W ops (disk0, rf0) = true ->
+  let d := fst (exec_crash W ops k (disk0, rf0)) in
+  consistent W d = true /\ cont d = true /\ recover_ready W d = true /\
+  (ops_fresh W ops (disk0, rf0) = true -> index_covers W d = true).
+Proof.
+  intros W ops k HW He d.
+  destruct (crash_consistent W ops k (disk0, rf0) HW (proj1 (good_init W HW)) He) as [C K].
+  repeat split; auto.
+  - apply (recover_next_store W d rf0 HW C K).
+  - intros Hf. exact (crash_index_covers W ops k (disk0, rf0) HW (good_init W HW) He Hf).
+Qed.
+Print Assumptions C05_from_empty.
 
 (* ... and it is the disk after a prefix of complete operations followed by a prefix of the batches
    of the next one (no hypothesis at all) ... *)
@@ -146,8 +180,8 @@ Proof. vm_compute. repeat split; reflexivity. Qed.
 Example C05_crash_index_refuted :
   let ops := firstn 3 chain5 ++ [Restart true; Revert; Store (blk 2 202 101 [7])] in
   let d := fst (exec_crash 4 ops 6 st0) in
-  ops_env 4 ops st0 = true /\ consistent 4 d = true /\ cont d = true /\ recover_ready 4 d = true /\
-  index_covers 4 d = false.
+  ops_env 4 ops st0 = true /\ ops_fresh 4 ops st0 = false /\
+  consistent 4 d = true /\ cont d = true /\ recover_ready 4 d = true /\ index_covers 4 d = false.
 Proof. vm_compute. repeat split; reflexivity. Qed.
 
 (* a restart whose filter initialisation re-writes a persisted window with a direct Put (snapshot at
@@ -179,3 +213,16 @@ Example C05_crash_nonvacuous :
   forallb (fun k => let d := fst (exec_crash 4 history k st0) in
                     consistent 4 d && cont d && recover_ready 4 d && index_covers 4 d) (seq 0 45) = true.
 Proof. vm_compute. split; reflexivity. Qed.
+
+(* the hypotheses of C05_index (with ops_fresh) are satisfiable by a non-trivial history: reverts across
+   a window end BEFORE any snapshot, then snapshot, prunes, restarts (with a roll-over write during
+   initialisation) and stores *)
+Definition history_fresh : list op :=
+  chain14 ++ [Revert; Revert; Revert; Store (blk 11 211 110 [5]); Snapshot; SetL1 7; Prune false 3; Restart false;
+              Prune true 6; Store (blk 12 212 211 [6]); Restart true; Store (blk 13 213 212 [7]); Restart false;
+              Store (blk 14 214 213 [8])].
+
+Example C05_index_nonvacuous :
+  ops_env 4 history_fresh st0 = true /\ ops_fresh 4 history_fresh st0 = true /\
+  existsb (fun n => Nat.ltb 1 n) (batch_counts 4 history_fresh st0) = true.
+Proof. vm_compute. repeat split; reflexivity. Qed.
